@@ -21,6 +21,7 @@ static var* R;                  /* stack-resident root slots (scanned by the col
 
 static int K;                   /* universe size */
 static int two, propC05, propC10, propC12;
+static int use_ledger;         /* C05 oracle: on for prop=C05 and whenever a Probe key or value type is in play */
 static var KT, VT;              /* key and value types */
 static int kkind, vkind;        /* 0 int, 1 str, 2 probe */
 static var keyobj[MAXK];
@@ -75,7 +76,7 @@ static void reset(void) {
 static void cleanup(void) {
   if (TA) { var e = VF_CATCH(del_table(TA, A_managed)); (void)e; TA = NULL; }
   if (TB) { var e = VF_CATCH(del_table(TB, B_managed)); (void)e; TB = NULL; }
-  if (propC05 && !vf_led_err[0] && vf_led_live != led_base) {
+  if (use_ledger && !vf_led_err[0] && vf_led_live != led_base) {
     vf_violation(L("leak-after-delete"), NULL, "after deleting every table %" PRId64 " Probe elements are still live (expected 0)", vf_led_live - led_base);
   }
   /* resynchronise so that one leak is not reported for every later execution */
@@ -312,7 +313,7 @@ static int check(void) {
     if (audit(TB, "B")) return 1;
     if (light ? check_slots(TB, &MB, "B (must be independent of A)") : check_map(TB, &MB, "B (must be independent of A)")) return 1;
   }
-  if (propC05 && check_ledger()) return 1;
+  if (use_ledger && check_ledger()) return 1;
   if (propC10 && check_eqhash()) return 1;
   return 0;
 }
@@ -768,6 +769,7 @@ int main(int argc, char** argv) {
   wrongkey = kkind == 1 ? (var)new_raw(Int, $I(0)) : (var)new_raw(String, $S("zz"));
   wrongval = new_raw(String, $S("zz"));
   led_base = vf_led_live;
+  use_ledger = propC05 || kkind == 2 || vkind == 2;
 
   struct vf_domain d = { "table", nops_total(), reset, cleanup, apply, check, canon, opname, nontrivial,
                          (size_t)vf_param_i("depth", 0), (size_t)vf_param_i("max_states", 0) };
